@@ -107,6 +107,9 @@ def main(tier, seed):
     hs = R.histories(depth)
     # plus the disabled words that keep the autonomous / test selection bit set, one level shallower
     hs = hs + [h for h in R.histories(depth - 1, alphabet="datxef", boot="datxef") if ("e" in h or "f" in h)]
+    # plus long histories over every two-word alphabet (repeated periods, long alternations)
+    seen_h = set(hs)
+    hs = hs + [h for h in R.long_histories(8 if tier == "quick" else 11) if h not in seen_h]
     # only maximal histories need to run when shutdown is explored at every prefix: a history is a prefix of
     # its extensions, but shutdown in each mode at each point is part of the alphabet, so run them all
     items = []
@@ -119,7 +122,7 @@ def main(tier, seed):
         states.update(tuple(x) for x in d["extra"].pop("_states", []))
         res.merge(d)
     res.states = len(states)
-    res.bounds.update(history_depth=depth, layouts=len(layouts(tier)), histories_per_layout=len(hs), alphabet="boot word + one driver-station word per loop iteration from {disabled, autonomous, teleop, test}; shutdown after every history")
+    res.bounds.update(two_word_history_depth=8 if tier == "quick" else 11, history_depth=depth, layouts=len(layouts(tier)), histories_per_layout=len(hs), alphabet="boot word + one driver-station word per loop iteration from {disabled, autonomous, teleop, test}; shutdown after every history")
     rule = (
         "every driver-station history up to the stated depth (boot word, then one word per control-loop iteration, then endCompetition) "
         "for every generated robot layout, executed through the real MagicRobot.startCompetition() in a baton-serialized thread; oracle = loop "
